@@ -179,6 +179,7 @@ def _work_random(args):
     strat = prop.strategy(tier)
     found = []
     cnt = [0]
+    t_first = [0.0]
 
     @hypothesis.seed(seed)
     @settings(max_examples=n, database=None, deadline=None, derandomize=False,
@@ -187,8 +188,12 @@ def _work_random(args):
     @given(strat)
     def run(case):
         cnt[0] += 1
+        if found and time.time() - t_first[0] > 20:
+            return  # bound the shrink phase: nothing smaller will be accepted any more
         fs = _eval_cases(prop, [case], st, sample_every=max(1, n // 3))
         if fs:
+            if not found:
+                t_first[0] = time.time()
             found.append(fs[0])
             raise AssertionError(fs[0][1])
 
@@ -293,6 +298,7 @@ def run_property(prop_factory, tier, seed, replay=None):
                 ex_done = False
                 break
         info["exhaustive_cases"] = ex_n
+        info["exhaustive_s"] = round(time.time() - t0, 1)
         # 3. random tier
         nr = prop.n_random(tier)
         if nr and not inconclusive and prop.strategy(tier) is not None:
@@ -302,6 +308,7 @@ def run_property(prop_factory, tier, seed, replay=None):
                 stats.merge(st)
                 failures += fs
             info["random_cases"] = per * nworkers
+            info["random_s"] = round(time.time() - t0 - info["exhaustive_s"], 1)
     # extra engines
     try:
         failures += prop.extra_phases({"tier": tier, "seed": seed, "stats": stats, "info": info, "paths": paths})
